@@ -272,48 +272,46 @@ def rule_reserve_then_append(chk, units):
                 return fn.access_path(x["obj"])
             return None
 
-        # `Error err = v.reserve(..)` locals
-        err_locals = {}
-        for i, x in fn.ex.items():
+        # flow-sensitive: which container's reserve result does an Error local currently hold?
+        from .relational import Relational
+
+        def bind_fx(eid, x, facts):
+            tgt = rhs = None
             if x["k"] == "decl":
+                adds, kills = [], []
                 for v in x["vars"]:
+                    kills += [f for f in facts if f[0] == "errof" and f[1] == v["did"]]
                     if v.get("init"):
-                        p = reserve_path(fn.strip(v["init"]))
-                        if p:
-                            err_locals[v["did"]] = p
-            elif x["k"] == "binop" and x["op"] == "=":
-                p = reserve_path(fn.strip(x["rhs"]))
+                        pth = reserve_path(fn.strip(v["init"]))
+                        if pth:
+                            adds.append(("errof", v["did"], pth))
+                return (tuple(adds), tuple(kills)) if (adds or kills) else None
+            if x["k"] == "binop" and x["op"] == "=":
                 l = fn.e(fn.strip(x["lhs"]))
-                if p and l and l["k"] == "ref" and "did" in l:
-                    err_locals[l["did"]] = p
-
-        def ok_paths(atom, holds):
-            """container paths whose reserve is known to have succeeded on this edge"""
-            x = fn.e(atom)
-            if not x:
-                return []
-            if x["k"] == "binop" and x["op"] in ("==", "!="):
-                for a, b in ((x["lhs"], x["rhs"]), (x["rhs"], x["lhs"])):
-                    bx = fn.e(fn.strip(b))
-                    if bx is not None and bx.get("cvn") == "kOk":
-                        is_ok = (x["op"] == "==") == holds
-                        if not is_ok:
-                            return []
-                        p = reserve_path(fn.strip(a))
-                        if p:
-                            return [p]
-                        ax = fn.e(fn.strip(a))
-                        if ax and ax["k"] == "ref" and ax.get("did") in err_locals:
-                            return [err_locals[ax["did"]]]
-            return []
-
-        def edge_fx(b, si, atom, holds):
-            return [("reserved", p) for p in ok_paths(atom, holds)]
-
-        def elem_fx(eid, x):
-            # ASMJIT_PROPAGATE(v.reserve(..)) expands to: Error _err = v.reserve(..); if (_err != kOk) return _err;  (handled by locals)
+                if l and l["k"] == "ref" and "did" in l:
+                    kills = [f for f in facts if f[0] == "errof" and f[1] == l["did"]]
+                    pth = reserve_path(fn.strip(x["rhs"]))
+                    adds = [("errof", l["did"], pth)] if pth else []
+                    return (tuple(adds), tuple(kills)) if (adds or kills) else None
             return None
-        m = Must(fn, elem_fx, edge_fx)
+
+        def ok_edge(b, si, atom, holds, facts):
+            x = fn.e(atom)
+            if not x or x["k"] != "binop" or x["op"] not in ("==", "!="):
+                return ()
+            for a, b2 in ((x["lhs"], x["rhs"]), (x["rhs"], x["lhs"])):
+                bx = fn.e(fn.strip(b2))
+                if bx is not None and bx.get("cvn") == "kOk":
+                    if (x["op"] == "==") != holds:
+                        return ()
+                    pth = reserve_path(fn.strip(a))
+                    if pth:
+                        return [("reserved", pth)]
+                    ax = fn.e(fn.strip(a))
+                    if ax and ax["k"] == "ref" and "did" in ax:
+                        return [("reserved", f[2]) for f in facts if f[0] == "errof" and f[1] == ax["did"]]
+            return ()
+        m = Relational(fn, bind_fx, ok_edge)
         ords = {}
         for i, x in sites:
             cont = fn.access_path(x["obj"]) if x.get("obj") else None
@@ -322,8 +320,7 @@ def rule_reserve_then_append(chk, units):
             ords[sname] = o + 1
             inst = "%s#%d" % (sname, o)
             n += 1
-            st = m.before(i)
-            ok = st is not None and ("reserved", cont) in st
+            ok = m.must(i, ("reserved", cont)) is True
             lk = "%s|%s" % (short(fn.name), cont)
             if not ok and lk in listed:
                 chk.ob(R, inst, True, loc=fn.loc(i), detail="listed: " + listed[lk])
